@@ -354,10 +354,8 @@ class HAPServerHandler:
         logger.debug("%s: Pairing [3/5]", self.client_address)
         encrypted_data = tlv_objects[HAP_TLV_TAGS.ENCRYPTED_DATA]
 
-        session_key = self.accessory_handler.srp_verifier.get_session_key()
-        hkdf_enc_key = hap_hkdf(
-            long_to_bytes(session_key), self.PAIRING_3_SALT, self.PAIRING_3_INFO
-        )
+        session_key = self.accessory_handler.srp_verifier.get_session_key_bytes()
+        hkdf_enc_key = hap_hkdf(session_key, self.PAIRING_3_SALT, self.PAIRING_3_INFO)
 
         cipher = ChaCha20Poly1305(hkdf_enc_key)
         try:
@@ -401,10 +399,8 @@ class HAPServerHandler:
         @type encryption_key: bytes
         """
         logger.debug("%s: Pairing [4/5]", self.client_address)
-        session_key = self.accessory_handler.srp_verifier.get_session_key()
-        output_key = hap_hkdf(
-            long_to_bytes(session_key), self.PAIRING_4_SALT, self.PAIRING_4_INFO
-        )
+        session_key = self.accessory_handler.srp_verifier.get_session_key_bytes()
+        output_key = hap_hkdf(session_key, self.PAIRING_4_SALT, self.PAIRING_4_INFO)
 
         data = output_key + client_username_bytes + client_ltpk
         verifying_key = ed25519.Ed25519PublicKey.from_public_bytes(client_ltpk)
@@ -426,10 +422,8 @@ class HAPServerHandler:
         Parameters are as for _pairing_four.
         """
         logger.debug("%s: Pairing [5/5]", self.client_address)
-        session_key = self.accessory_handler.srp_verifier.get_session_key()
-        output_key = hap_hkdf(
-            long_to_bytes(session_key), self.PAIRING_5_SALT, self.PAIRING_5_INFO
-        )
+        session_key = self.accessory_handler.srp_verifier.get_session_key_bytes()
+        output_key = hap_hkdf(session_key, self.PAIRING_5_SALT, self.PAIRING_5_INFO)
 
         server_public = self.state.public_key.public_bytes(
             encoding=serialization.Encoding.Raw,
